@@ -141,53 +141,73 @@ Proof. vm_compute. repeat split; reflexivity. Qed.
    CPython's binding, written independently (validated against inspect.Signature.bind on every generated call).
    Names, annotations (A) and argument values (V) are arbitrary. *)
 
-(* On every call CPython accepts, every passed argument is matched against exactly the annotation the binding
-   associates with it (same arguments, same order, same formal, keyword-only / *args / **kwargs parameters included)
-   -- away from two named deviations. *)
-Theorem argsite_binding_partial : forall (A V : Type) (s : ArgSite.sig A) (c : ArgSite.call V) l,
-  ArgSite.wf_sig s = true -> ArgSiteProofs.ann_keys_ok A s = true -> ArgSite.bind s c = Some l ->
-  ArgSite.kw_named_like_star s c = false -> ArgSite.kw_unannotated_with_kwargs s c = false ->
-  ArgSite.iter_args s c = l.
-Proof. exact ArgSiteProofs.iter_args_is_binding. Qed.
-Print Assumptions argsite_binding_partial.
+(* The model has TWO VARIANTS of Signature.iter_args / _match_args_sequentially, selected by a boolean: [true] is the
+   code with fixes/C02-iter-args-keyword-binding.patch, [false] the code before it.  The check probes which variant
+   the tree under test implements and runs the correspondence against that variant. *)
+
+(* FIXED code: on EVERY call CPython accepts, every passed argument is matched against exactly the annotation the
+   binding associates with it (same arguments, same order, same formal; keyword-only / *args / **kwargs parameters,
+   keywords spelled like a positional-only or a star parameter included).  No deviation hypothesis. *)
+Theorem argsite_binding : forall (A V : Type) (s : ArgSite.sig A) (c : ArgSite.call V) l,
+  ArgSite.bind s c = Some l -> ArgSite.iter_args true s c = l.
+Proof. exact ArgSiteProofs.iter_args_fixed_is_binding. Qed.
+Print Assumptions argsite_binding.
 
 (* ... hence: a wrong-arg-types error iff some passed argument fails the annotation CPython's binding gives it
    (matchf is the matcher on one argument, e.g. err_arg above) *)
-Theorem argsite_error_exact_partial : forall (A V : Type) (matchf : V -> ArgSite.formal A -> bool)
+Theorem argsite_error_exact : forall (A V : Type) (matchf : V -> ArgSite.formal A -> bool)
+    (s : ArgSite.sig A) (c : ArgSite.call V) l,
+  ArgSite.bind s c = Some l ->
+  ArgSite.err_call true matchf s c =
+  existsb (fun vf => match snd vf with Some f => negb (matchf (fst vf) f) | None => false end) l.
+Proof. exact ArgSiteProofs.err_call_fixed_is_binding. Qed.
+Print Assumptions argsite_error_exact.
+
+(* code BEFORE the fix: the same, away from two named deviations *)
+Theorem argsite_binding_before_fix_partial : forall (A V : Type) (s : ArgSite.sig A) (c : ArgSite.call V) l,
+  ArgSite.wf_sig s = true -> ArgSiteProofs.ann_keys_ok A s = true -> ArgSite.bind s c = Some l ->
+  ArgSite.kw_named_like_star s c = false -> ArgSite.kw_unannotated_with_kwargs s c = false ->
+  ArgSite.iter_args false s c = l.
+Proof. exact ArgSiteProofs.iter_args_is_binding. Qed.
+Print Assumptions argsite_binding_before_fix_partial.
+
+Theorem argsite_error_exact_before_fix_partial : forall (A V : Type) (matchf : V -> ArgSite.formal A -> bool)
     (s : ArgSite.sig A) (c : ArgSite.call V) l,
   ArgSite.wf_sig s = true -> ArgSiteProofs.ann_keys_ok A s = true -> ArgSite.bind s c = Some l ->
   ArgSite.kw_named_like_star s c = false -> ArgSite.kw_unannotated_with_kwargs s c = false ->
-  ArgSite.err_call matchf s c =
+  ArgSite.err_call false matchf s c =
   existsb (fun vf => match snd vf with Some f => negb (matchf (fst vf) f) | None => false end) l.
 Proof. exact ArgSiteProofs.err_call_is_binding. Qed.
-Print Assumptions argsite_error_exact_partial.
+Print Assumptions argsite_error_exact_before_fix_partial.
 
-(* both hypotheses are necessary: D1  def f(a: int, **kw: int); f(1, kw=5)  is matched against Mapping[str, int];
-   D2  def f(a, *, k, **kw: int); f(1, k=5)  matches the un-annotated k against **kw's int *)
-Theorem argsite_binding_refuted :
+(* before the fix both hypotheses are necessary: D1  def f(a: int, **kw: int); f(1, kw=5)  is matched against
+   Mapping[str, int]; D2  def f(a, *, k, **kw: int); f(1, k=5)  matches the un-annotated k against **kw's int *)
+Theorem argsite_binding_before_fix_refuted :
   (ArgSite.wf_sig ArgSiteProofs.d1_sig = true /\ ArgSiteProofs.ann_keys_ok nat ArgSiteProofs.d1_sig = true /\
    ArgSite.bind ArgSiteProofs.d1_sig ArgSiteProofs.d1_call =
      Some [(1, Some (ArgSite.FElem 7)); (5, Some (ArgSite.FElem 7))] /\
-   ArgSite.iter_args ArgSiteProofs.d1_sig ArgSiteProofs.d1_call =
+   ArgSite.iter_args false ArgSiteProofs.d1_sig ArgSiteProofs.d1_call =
      [(1, Some (ArgSite.FElem 7)); (5, Some (ArgSite.FKw 7))] /\
    ArgSite.kw_unannotated_with_kwargs ArgSiteProofs.d1_sig ArgSiteProofs.d1_call = false) /\
   (ArgSite.wf_sig ArgSiteProofs.d2_sig = true /\ ArgSiteProofs.ann_keys_ok nat ArgSiteProofs.d2_sig = true /\
    ArgSite.bind ArgSiteProofs.d2_sig ArgSiteProofs.d2_call = Some [(1, None); (5, None)] /\
-   ArgSite.iter_args ArgSiteProofs.d2_sig ArgSiteProofs.d2_call = [(1, None); (5, Some (ArgSite.FElem 7))] /\
+   ArgSite.iter_args false ArgSiteProofs.d2_sig ArgSiteProofs.d2_call = [(1, None); (5, Some (ArgSite.FElem 7))] /\
    ArgSite.kw_named_like_star ArgSiteProofs.d2_sig ArgSiteProofs.d2_call = false).
 Proof. exact ArgSiteProofs.binding_refuted_w. Qed.
-Print Assumptions argsite_binding_refuted.
+Print Assumptions argsite_binding_before_fix_refuted.
 
-(* D1, crashing variant:  def f(a: int, *rest, **kw: int); f(1, rest=5)  -- widen_type on a plain class: pytype
-   raises AssertionError (reproduced by the check) *)
-Theorem argsite_crash_real :
+(* D1, crashing variant, before the fix:  def f(a: int, *rest, **kw: int); f(1, rest=5)  -- widen_type on a plain
+   class: pytype raised AssertionError; the fixed code matches it against **kw's int like the binding *)
+Theorem argsite_crash_before_fix_real :
   ArgSite.wf_sig ArgSiteProofs.d3_sig = true /\ ArgSiteProofs.ann_keys_ok nat ArgSiteProofs.d3_sig = true /\
   ArgSite.bind ArgSiteProofs.d3_sig ArgSiteProofs.d3_call =
     Some [(1, Some (ArgSite.FElem 7)); (5, Some (ArgSite.FElem 7))] /\
-  ArgSite.iter_args ArgSiteProofs.d3_sig ArgSiteProofs.d3_call =
-    [(1, Some (ArgSite.FElem 7)); (5, Some (ArgSite.FCrash 7))].
+  ArgSite.iter_args false ArgSiteProofs.d3_sig ArgSiteProofs.d3_call =
+    [(1, Some (ArgSite.FElem 7)); (5, Some (ArgSite.FCrash 7))] /\
+  ArgSite.iter_args true ArgSiteProofs.d3_sig ArgSiteProofs.d3_call =
+    [(1, Some (ArgSite.FElem 7)); (5, Some (ArgSite.FElem 7))].
 Proof. exact ArgSiteProofs.crash_w. Qed.
-Print Assumptions argsite_crash_real.
+Print Assumptions argsite_crash_before_fix_real.
 
 (* non-vacuity: def f(p, /, a: T3, *rest: T5, k: T7, **kw: T9);  f(10, 11, 12, k=13, z=14, p=15): the hypotheses
    hold; the keyword-only k gets T7, the extra positional T5, the unknown keyword z and the positional-only NAME p
@@ -203,7 +223,12 @@ Example argsite_hyps_hold :
   ArgSite.kw_named_like_star ex_sig ex_call = false /\ ArgSite.kw_unannotated_with_kwargs ex_sig ex_call = false /\
   ArgSite.bind ex_sig ex_call =
     Some [(10, None); (11, Some (ArgSite.FElem 3)); (12, Some (ArgSite.FElem 5)); (13, Some (ArgSite.FElem 7));
-          (14, Some (ArgSite.FElem 9)); (15, Some (ArgSite.FElem 9))].
+          (14, Some (ArgSite.FElem 9)); (15, Some (ArgSite.FElem 9))] /\
+  (* the fixed variant also computes the binding on the two witnesses that refute the old one *)
+  Some (ArgSite.iter_args true ArgSiteProofs.d1_sig ArgSiteProofs.d1_call) =
+    ArgSite.bind ArgSiteProofs.d1_sig ArgSiteProofs.d1_call /\
+  Some (ArgSite.iter_args true ArgSiteProofs.d2_sig ArgSiteProofs.d2_call) =
+    ArgSite.bind ArgSiteProofs.d2_sig ArgSiteProofs.d2_call.
 Proof. vm_compute. repeat split; reflexivity. Qed.
 
 (* ============================================================================================================ *)
